@@ -206,6 +206,18 @@ def rule_edge(ctx):
         op, node = admit_relation(c, conds, lambda s: "rdistance(" in s, lambda s: "range" in s)
         rel["LinearSearch"] = op
         locs["LinearSearch"] = fn_loc(fn, node["ln"]) if node else fn_loc(fn)
+        if op is None:
+            # the scan admits by the *plain* distance against the plain radius while the trees admit by the reduced
+            # distance against the reduced radius: equal as real numbers, but sqrt / square round differently, so points
+            # exactly on the radius are treated differently by the kinds (L2 on lattice data)
+            r_ = Render(c)
+            for x in conds:
+                if x.get("op") in ("<", "<=", ">", ">="):
+                    l_, rr_ = r_.e(x["l"]), r_.e(x["r"])
+                    plain = [s_ for s_ in (l_, rr_) if re.search(r"(?<![a-z_])distance\(", s_) and "rdistance(" not in s_]
+                    if plain and ("range" in l_ or "range" in rr_):
+                        res.instance("LinearSearch : unit of the admission test")
+                        res.violate("LinearSearch : admission-in-plain-distance", "the linear scan admits a point by `%s`, a comparison of plain distances, while the tree indices compare reduced distances with the reduced radius: the two predicates round differently, so the kinds disagree on points exactly on the radius" % r_.e(x)[:60], fn_loc(fn, x.get("ln")))
     # ball tree: guard of the push into the result heap, against the radius parameter
     fns = [f for f in F.find_fns(name="nn_helper", krate="linfa_nn")]
     if not fns:
